@@ -166,9 +166,9 @@ func TestC06(t *testing.T) {
 	type nc struct{ n, c int }
 	var spaces []nc
 	if r.thorough() {
-		spaces = []nc{{4, 2}, {5, 3}, {6, 3}, {6, 4}, {7, 3}, {8, 4}, {9, 4}, {10, 5}}
+		spaces = []nc{{4, 2}, {5, 3}, {6, 3}, {6, 4}, {7, 3}, {8, 4}, {9, 4}, {9, 3}, {12, 2}, {11, 3}, {10, 4}, {10, 5}}
 	} else {
-		spaces = []nc{{3, 2}, {4, 2}, {5, 2}, {5, 3}, {6, 3}, {6, 2}}
+		spaces = []nc{{3, 2}, {4, 2}, {5, 2}, {5, 3}, {6, 3}, {6, 2}, {7, 3}, {6, 4}}
 	}
 	for si, sp := range spaces {
 		if !r.mine(si) && !(sp.n == 10 && sp.c == 5) {
